@@ -2,6 +2,7 @@ package toxics
 
 import (
 	"fmt"
+	"math"
 	"time"
 
 	"github.com/rs/zerolog/log"
@@ -39,7 +40,9 @@ func (t *BandwidthToxic) Pipe(stub *ToxicStub) {
 				sleep += time.Duration(len(p.Data)) * time.Millisecond / time.Duration(t.Rate)
 			}
 			// If the rate is low enough, split the packet up and send in 100 millisecond intervals
-			for int64(len(p.Data)) > t.Rate*100 {
+			// (a negative rate does not limit anything, see above; a rate so large that
+			// Rate*100 overflows never needs splitting)
+			for t.Rate >= 0 && t.Rate <= math.MaxInt64/100 && int64(len(p.Data)) > t.Rate*100 {
 				select {
 				case <-time.After(100 * time.Millisecond):
 					stub.Output <- &stream.StreamChunk{
